@@ -27,6 +27,8 @@ import McpModel.Preflight.Bridge
 import McpModel.Notify.Props
 import McpModel.ClientStream.Props
 import McpModel.ClientStream.AsBuilt
+import McpModel.ClientStream.Bridge
+import McpModel.ClientStream.Sound
 -- (McpModel.ClientStream.Driver defines its own top-level `main`; it is built by the lean_exe drv_clientstream)
 import McpModel.Sessions.Props
 import McpModel.Wire.Props
